@@ -15,7 +15,7 @@ from hypothesis import strategies as st
 from yv import gen, models, tree as T
 from yv.common import canon
 from yv.conform import Conf, admissible_classes
-from yv.runner import HypPhase
+from yv.runner import EnumPhase, HypPhase
 
 ID = 'C04'
 RULE = ('Hypothesis draws a class model with Any/untyped/_yatiml_extra '
@@ -256,9 +256,51 @@ def check(case, ctx):
                                'outcome': outcome})
 
 
+# An object written as a sequence (recognised as a sequence, turned into a
+# mapping by _yatiml_savorize re-using the item nodes): whatever is decided
+# about the node before seasoning must be decided again afterwards.
+_P = lambda n, t, d=None: dict({'name': n, 'type': t}, **({'default': d} if d is not None else {}))
+SEQFORM = {'classes': [
+    {'name': 'Trap', 'kind': 'obj', 'bases': [], 'params': [_P('a', 'int', ['int', 0])]},
+    {'name': 'Tg', 'kind': 'obj', 'bases': [], 'params': [_P('host', 'str'), _P('port', 'int', ['int', 22])]},
+    {'name': 'Step', 'kind': 'obj', 'bases': [], 'params': [_P('name', 'str'), _P('args', 'any')],
+     'recognize': [['sequence']], 'savorize': [['seq_to_attrs', ['name', 'args']]]},
+    {'name': 'Unty', 'kind': 'obj', 'bases': [], 'params': [_P('name', 'str'), _P('args', None)],
+     'recognize': [['sequence']], 'savorize': [['seq_to_attrs', ['name', 'args']]]},
+    {'name': 'Dep', 'kind': 'obj', 'bases': [], 'params': [_P('name', 'str'), _P('target', ['ref', 'Tg'])],
+     'recognize': [['sequence']], 'savorize': [['seq_to_attrs', ['name', 'target']]]},
+    {'name': 'Lst', 'kind': 'obj', 'bases': [], 'params': [_P('name', 'str'), _P('ports', ['list', 'int'])],
+     'recognize': [['sequence']], 'savorize': [['seq_to_attrs', ['name', 'ports']]]},
+], 'order': ['Trap', 'Tg', 'Step', 'Unty', 'Dep', 'Lst']}
+
+
+def enum_seqform(shard, nshards):
+    payloads = ['!Trap {a: 1}', '!Trap {}', '[!Trap {a: 1}]', '{k: !Trap {a: 2}}', '{k: [x, !Trap {}]}',
+                '!Tg {host: h}', '!!python/object:yv_canary.Thing {}',
+                '!!python/object/apply:yv_canary.hit [1]', '!!python/name:yv_canary.hit',
+                '!Unknown {a: 1}', '{host: h}', 'x', '[1, 2]', '[1, true]', '{a: 1}', '!Trap x']
+    i = 0
+    for cls in ('Step', 'Unty', 'Dep', 'Lst'):
+        for wrap in ('%s', '[%s]', '{k: %s}'):
+            dt = {'%s': ['ref', cls], '[%s]': ['list', ['ref', cls]],
+                  '{k: %s}': ['dict', 'str', ['ref', cls]]}[wrap]
+            for pl in payloads:
+                for doc in ('[run, %s]' % pl, '[%s, run]' % pl, '[run, %s, x]' % pl):
+                    if i % nshards == shard:
+                        yield {'model': dict(SEQFORM, doc_type=dt), 'text': wrap % doc,
+                               'src': 'seqform'}
+                    i += 1
+
+
 def phases(tier):
     n = 250 if tier != 'thorough' else 4000
-    ph = [HypPhase('models_x_tagged_documents', cases(), n)]
+    ph = [HypPhase('models_x_tagged_documents', cases(), n),
+          EnumPhase('sequence_form_template', enum_seqform,
+                    'classes written as a sequence and turned into a mapping by '
+                    '_yatiml_savorize (item nodes re-used as attribute values), with Any, '
+                    'untyped, class-typed and List[int] second attributes: 16 payloads '
+                    '(tagged registered / trap / python / unknown objects, plain data) x 3 '
+                    'item orders x root / list / dict positions')]
     if tier == 'thorough':
         from yv import fuzzphase
         ph.append(fuzzphase.fuzz_phase('C04', 200000))
